@@ -109,14 +109,16 @@ def gen_plan(seed, tier, index=0, avoid=()):
     enc = rng.choice(("utf-8", "utf-8", "latin-1"))
     h, w = rng.randint(1, 7), rng.randint(1, 10)
     if rng.random() < 0.5:
-        cfg = {"h": h, "w": w, "encoding": enc, "callback": rng.random() < 0.75, "start_row": rng.randrange(h)}
+        cfg = {"h": h, "w": w, "encoding": enc, "callback": rng.random() < 0.75, "start_row": rng.randrange(h),
+               "out_buffer": rng.choice(("none", "line", "block", "block"))}
         steps = [_gen_query(rng, enc) for _ in range(rng.choice((1, 1, 2, 3)))]
         return {"prop": PROP, "seed": seed, "mode": "A", "cfg": cfg, "steps": steps, "enumerate": True}
     # ---- part B
     h = rng.randint(2, 8) if rng.random() < 0.85 else 1
     # without a callback, input ahead of a report makes the query raise ValueError (allowed); the window
     # must stay usable: later queries still account for every movement
-    cfg = {"h": h, "w": w, "encoding": enc, "callback": rng.random() < 0.8, "start_row": rng.randrange(h)}
+    cfg = {"h": h, "w": w, "encoding": enc, "callback": rng.random() < 0.8, "start_row": rng.randrange(h),
+           "out_buffer": rng.choice(("none", "line", "block", "block"))}
     maxsteps = 25 if tier == "thorough" else 14
     nsteps = rng.choice((2, 3, 4, 6, rng.randint(2, maxsteps)))
     steps = []
@@ -340,7 +342,8 @@ def run_plan(p, keep_log=False):
 
 def _run_one(p, keep_log):
     cfg = p["cfg"]
-    s = setup.make({"h": cfg["h"], "w": cfg["w"], "encoding": cfg["encoding"], "yield_cap": 500000}, None, keep_log)
+    s = setup.make({"h": cfg["h"], "w": cfg["w"], "encoding": cfg["encoding"], "yield_cap": 500000,
+                    "out_buffer": cfg.get("out_buffer", "none")}, None, keep_log)
     world, term = s.world, s.term
     res = {"violation": None, "error": None, "probes": world.probes, "faults": world.faults,
            "states": set(), "nsteps": 0, "reads_per_step": {}}
@@ -377,6 +380,10 @@ def _enter(win, res):
         return True
     except HarnessError:
         raise
+    except Quiescent:
+        _violate(res, "query_hung", -1, {"note": "__enter__'s cursor query blocked for ever: the query never reached the "
+                                                 "terminal (not flushed?) or the report was not recognised"})
+        return False
     except Exception as e:
         if environment_artefact(e):
             raise HarnessError("stub-environment artefact: %s: %s" % (type(e).__name__, e))
